@@ -79,7 +79,7 @@ End Oracles.
 (* ---- phase range ---- *)
 (* the repaired wrap_phase returns a phase in [0, tau) for every rounding that keeps non-negative numbers
    non-negative; without rounding it is numpy's floor remainder *)
-Theorem wrap_range : forall tau rnd, 0 < tau -> (forall v, 0 <= v -> 0 <= rnd v) ->
+Theorem wrap_range : forall tau, 0 < tau -> forall rnd, (forall v, 0 <= v -> 0 <= rnd v) ->
   forall x, 0 <= wrap tau rnd x /\ wrap tau rnd x < tau.
 Proof. exact FreqFacts.wrap_range. Qed.
 
@@ -98,7 +98,7 @@ Theorem unwrap_length : forall tau p, length (unwrap tau p) = length p.
 Proof. exact FreqFacts.unwrap_length. Qed.
 
 (* unwrapping adds whole periods only, so wrapping the unwrapped phase gives the wrapped original *)
-Theorem wrap_unwrap : forall tau rnd, 0 < tau -> forall p k, (k < length p)%nat ->
+Theorem wrap_unwrap : forall tau, 0 < tau -> forall rnd p k, (k < length p)%nat ->
   wrap tau rnd (nthq (unwrap tau p) k) = wrap tau rnd (nthq p k).
 Proof. exact FreqFacts.wrap_unwrap. Qed.
 
